@@ -5,6 +5,7 @@ package kvstore
 import (
 	"errors"
 	"io"
+	"time"
 
 	"github.com/olric-data/olric/internal/kvstore/entry"
 	"github.com/olric-data/olric/pkg/storage"
@@ -22,9 +23,16 @@ var vpKeyNames = [3]string{"a", "b", "c"}
 
 func vpHKey(i int) uint64 { return uint64(1000 + 7*i) }
 
+// vpIdleNow: when set, recycled tables count as idle-expired at once (maxIdleTableTimeout = 0), so the
+// table-dropping branch of Compaction is reachable without advancing a clock (and replays natively).
+var vpIdleNow bool
+
 func vpMkStore(size uint64) *KVStore {
 	c := DefaultConfig()
 	c.Add("tableSize", size)
+	if vpIdleNow {
+		c.Add("maxIdleTableTimeout", time.Duration(0))
+	}
 	s, err := New(c)
 	if err != nil {
 		panic(err)
@@ -238,6 +246,7 @@ func VerifC11_Map() {
 	big := vpBound("biglen")
 	size := vpU64("tableSize")
 	vpAssume(size >= 31 && size <= uint64(4*(30+big)))
+	vpIdleNow = vpChoose("idle", 2) == 1
 	s := vpMkStore(size)
 	ref := make([]vpRef, nkeys)
 	for i := 0; i < steps; i++ {
